@@ -4,6 +4,7 @@ import Gmx.Model.Liquidity
 /-! driver engine `mkt` — C14, C04, C05, C06 (market state; swaps and liquidity).
 
 `mkt new <sid> <W> <U> <28 config numbers>` · `mkt tick <sid> <secs>` · `mkt setpool <sid> <kind> <long> <short>`
+· `mkt setclock <sid> <0|1|2> <seconds>` (impact-distribution / borrowing / funding clock, may be AHEAD of `now`)
 · `mkt setvi <sid> <which> <long> <short>` · `mkt dist <sid>` · `mkt pv <sid> <kind> <maximize> <6 prices>`
 · `mkt swap <sid> <inLong> <amount> <6 prices>` → `ok out impactValue impactAmount feePool feeRecv`
 · `mkt deposit <sid> <long> <short> <6 prices>` → `ok minted impact fLpool fLrecv fSpool fSrecv`
@@ -40,6 +41,15 @@ def mktOp (db : MktDb) (sid : String) (s : MktSt) (op : String) (args : List Str
       if l ≥ 2 ^ W ∨ sh ≥ 2 ^ W then (db, "bad-op") else
       if which = 0 then mktReply db sid s { m with viSwaps := some ⟨l, sh⟩ } "ok"
       else if which = 1 then mktReply db sid s { m with viPositions := some ⟨l, sh⟩ } "ok"
+      else (db, "bad-op")
+    | _ => (db, "bad-op")
+  | "setclock", [k, v] =>
+    match allNat [k, v] with
+    | some [k, v] =>
+      if v ≥ 2 ^ 64 then (db, "bad-op") else
+      if k = 0 then mktReply db sid s { m with clockImpactDist := some v } "ok"
+      else if k = 1 then mktReply db sid s { m with clockBorrowing := some v } "ok"
+      else if k = 2 then mktReply db sid s { m with clockFunding := some v } "ok"
       else (db, "bad-op")
     | _ => (db, "bad-op")
   | "dist", [] =>
